@@ -125,7 +125,9 @@ func (d *DiskKV) Start() {
 			}
 		case m := <-d.queue:
 			var mutError error
-			if logError := d.appendLog(m.mut); logError == nil {
+			if mutError = d.validateMutation(m.mut); mutError != nil {
+				// rejected by the current state: it must never reach the log
+			} else if logError := d.appendLog(m.mut); logError == nil {
 				mutError = d.handleMutation(m.mut)
 				if mutError != nil {
 					d.rollbackOne(m.mut, mutError)
